@@ -195,6 +195,10 @@ func c01fill(prefix string, ot reflect.Type, pv, ov reflect.Value) {
 			continue
 		}
 		name := prefix + f.Name
+		if f.Type.Kind() == reflect.Ptr && (f.Type.Elem().Kind() == reflect.Chan || f.Type.Elem().Kind() == reflect.Func) {
+			// part of the pointerified type, but no layer ever sets it
+			continue
+		}
 		pf := pv.FieldByName(f.Name)
 		if !pf.IsValid() {
 			zzverif.Fail("C01 the pointerified type lacks field " + name)
